@@ -354,9 +354,9 @@ func (pe *PolicyEngine) checkConsistentLabelsForPodsOfSameOwner(newPod *k8s.Pod)
 	if _, ok := pe.podOwnersToRepresentativePodMap[newPod.Namespace]; !ok { // add the new namespace to the map
 		pe.podOwnersToRepresentativePodMap[newPod.Namespace] = make(map[string]*k8s.Pod)
 	}
-	firstPod, ok := pe.podOwnersToRepresentativePodMap[newPod.Namespace][newPod.Owner.Name]
+	firstPod, ok := pe.podOwnersToRepresentativePodMap[newPod.Namespace][podOwnerKey(newPod)]
 	if !ok { // add the new ownerReference with this new pod
-		pe.podOwnersToRepresentativePodMap[newPod.Namespace][newPod.Owner.Name] = newPod
+		pe.podOwnersToRepresentativePodMap[newPod.Namespace][podOwnerKey(newPod)] = newPod
 		return nil
 	}
 	// compare the owner first pod's labels with new pod's Labels
@@ -364,6 +364,12 @@ func (pe *PolicyEngine) checkConsistentLabelsForPodsOfSameOwner(newPod *k8s.Pod)
 		return generateLabelsDiffError(firstPod, newPod, key, firstVal, newVal) // err
 	}
 	return nil
+}
+
+// podOwnerKey is the key of a pod's owner in podOwnersToRepresentativePodMap[namespace]:
+// owners of different kinds that share a name (e.g. a Job and a ReplicaSet) are different workloads
+func podOwnerKey(pod *k8s.Pod) string {
+	return pod.Owner.Kind + "/" + pod.Owner.Name
 }
 
 // helper: generateLabelsDiffError generates the error message of the gap between two pods' labels
@@ -559,21 +565,21 @@ func (pe *PolicyEngine) deletePod(p *corev1.Pod) error {
 // the deletedPod already deleted from pe.podsMap
 func (pe *PolicyEngine) updatePodOwnersToRepresentativePodMapIfRequired(deletedPod *k8s.Pod) {
 	// all existing pods' owners are in the map already
-	representativePod := pe.podOwnersToRepresentativePodMap[deletedPod.Namespace][deletedPod.Owner.Name]
+	representativePod := pe.podOwnersToRepresentativePodMap[deletedPod.Namespace][podOwnerKey(deletedPod)]
 	if deletedPod != representativePod { // this was not the representative pod, no need to update
 		return
 	}
 	// deletedPod was the representative pods:
 	// check in pe.podsMap if there are other pods belonging to same owner
 	for _, pod := range pe.podsMap {
-		if pod.Namespace == deletedPod.Namespace && pod.Owner.Name == deletedPod.Owner.Name {
+		if pod.Namespace == deletedPod.Namespace && podOwnerKey(pod) == podOwnerKey(deletedPod) {
 			// replace the representative pod with current pod
-			pe.podOwnersToRepresentativePodMap[deletedPod.Namespace][deletedPod.Owner.Name] = pod
+			pe.podOwnersToRepresentativePodMap[deletedPod.Namespace][podOwnerKey(deletedPod)] = pod
 			return
 		}
 	}
 	// if we get here no remaining pods with same owner, delete the owner entry
-	delete(pe.podOwnersToRepresentativePodMap[deletedPod.Namespace], deletedPod.Owner.Name)
+	delete(pe.podOwnersToRepresentativePodMap[deletedPod.Namespace], podOwnerKey(deletedPod))
 	// if it was the only owner under ns delete the ns entry
 	if len(pe.podOwnersToRepresentativePodMap[deletedPod.Namespace]) == 0 {
 		delete(pe.podOwnersToRepresentativePodMap, deletedPod.Namespace)
